@@ -62,3 +62,8 @@ def ld_size__facts(s, p, r):
 def fact_ld_size(s: Str, p: Int):
     nofacts("ld_size")
     ensures(ld_size(s, p) == 8 or ld_size(s, p) == 16)
+
+
+def in_size_range(lo, hi, n):
+    """X.680 size constraint lo..hi with open ends written None / 'MIN' / 'MAX'"""
+    return (lo is None or lo == 'MIN' or lo <= n) and (hi is None or hi == 'MAX' or n <= hi)
